@@ -132,6 +132,13 @@ func ruleLockset(c *Check, p *Program, rule string) {
 					if _, isR := isRecv(j); isR {
 						return
 					}
+					if ci, isC := j.(*ssa.Call); isC {
+						if h := staticCallee(ci); inModule(h) && h != fn {
+							if okr, _ := mustOnAllPaths(p, h, func(x ssa.Instruction) bool { _, r := isRecv(x); return r }, false, 1); okr {
+								return // the hand-shake (which ends with a receive) is done by a helper
+							}
+						}
+					}
 				}
 				for k, s := range b.Succs {
 					if safeEdge(b, k) {
@@ -262,7 +269,7 @@ func ruleEnqueueBeforeSpawn(c *Check, p *Program, rule string) {
 		if root == nil {
 			continue
 		}
-		for _, fn := range withAnon(root) {
+		for _, fn := range familyFns(root) {
 			allInstrs(fn, func(in ssa.Instruction) {
 				g, ok := in.(*ssa.Go)
 				if !ok {
@@ -418,7 +425,7 @@ func ruleReleaseAfterUse(c *Check, p *Program, rule string) {
 	// Writer worker: Put(data) and b.Close come after the final receive on c, which follows the send of the result
 	ww := findFn(c, p, rule, "", "Writer.write")
 	if ww != nil {
-		for _, fn := range withAnon(ww)[1:] {
+		for _, fn := range familyFns(ww)[1:] {
 			var send, recv ssa.Instruction
 			allInstrs(fn, func(in ssa.Instruction) {
 				if _, ok := in.(*ssa.Send); ok && send == nil {
@@ -488,7 +495,7 @@ func ruleReleaseAfterUse(c *Check, p *Program, rule string) {
 	// Reader worker: the decoded buffer is sent, the compressed block released by deferred Close
 	ir := findFn(c, p, rule, "internal/lz4stream", "Blocks.initR")
 	if ir != nil {
-		for _, fn := range withAnon(ir)[1:] {
+		for _, fn := range familyFns(ir)[1:] {
 			hasUn := false
 			for _, ci := range callsIn(fn) {
 				if calleeIs(ci, pkgStream, "FrameDataBlock.Uncompress") {
@@ -573,10 +580,17 @@ func ruleHandOff(c *Check, p *Program, rule string) {
 		if fn == nil {
 			continue
 		}
-		for _, ci := range callsIn(fn) {
-			if !calleeIs(ci, pkgRoot, "Writer.write") {
-				continue
+		anchor := fn
+		var sites []ssa.CallInstruction
+		for _, g := range deepFuncs(anchor, 2) {
+			for _, ci := range callsIn(g) {
+				if calleeIs(ci, pkgRoot, "Writer.write") {
+					sites = append(sites, ci)
+				}
 			}
+		}
+		for _, ci := range sites {
+			fn := ci.Parent()
 			data := ci.Common().Args[1]
 			if !derivesFromField(data, "Writer.data") {
 				continue
@@ -602,10 +616,9 @@ func ruleHandOff(c *Check, p *Program, rule string) {
 			if k, isK := safe.(*ssa.Const); isK && k.Value != nil && k.Value.Kind() == constant.Bool && constant.BoolVal(k.Value) {
 				safeOK = true
 			}
-			if u, isU := safe.(*ssa.UnOp); isU && u.Op == token.NOT {
-				if call, isC := u.X.(*ssa.Call); isC && calleeIs(call, pkgRoot, "Writer.isNotConcurrent") {
-					safeOK = true
-				}
+			// "concurrent": !isNotConcurrent() or its inlined form w.num != 1
+			if at := atomOf(safe, true); at.Kind == "call" && strings.HasSuffix(at.Name, "isNotConcurrent") && !at.Val {
+				safeOK = true
 			}
 			c.Cond(!bad && safeOK, rule, key, p.InstrPos(ci), "when the accumulation buffer is handed to a compression goroutine (concurrent mode) the Writer replaces it with a fresh pool buffer before using w.data again, and the goroutine is told it owns the buffer",
 				"path search under !sequential: every path to a return or to the next use of w.data passes w.data = size.Get(); safe is true when concurrent", fmt.Sprintf("path to %s without replacing w.data: %v; ownership flag true when concurrent: %v", where, bad, safeOK))
@@ -787,12 +800,33 @@ func ruleLiveness(c *Check, p *Program, rule string) {
 	if fn == nil {
 		return
 	}
-	var sentinel ssa.Instruction
+	// the sentinel send: in Blocks.close itself, or in a helper that is handed the queue
+	var sentinel ssa.Instruction // the site in Blocks.close (the send, or the call of the helper)
+	var send *ssa.Send
+	hsFn := fn
 	allInstrs(fn, func(in ssa.Instruction) {
-		if s, ok := in.(*ssa.Send); ok && loadField(s.Chan) == "Blocks.Blocks" {
-			sentinel = in
+		if s, ok := in.(*ssa.Send); ok && derivesFromField(s.Chan, "Blocks.Blocks") {
+			sentinel, send = in, s
 		}
 	})
+	if sentinel == nil {
+		for _, ci := range callsIn(fn) {
+			h := staticCallee(ci)
+			if !inModule(h) || h == fn {
+				continue
+			}
+			if _, isGo := ci.(*ssa.Go); isGo {
+				continue
+			}
+			allInstrs(h, func(in ssa.Instruction) {
+				if s, ok := in.(*ssa.Send); ok && derivesFromField(s.Chan, "Blocks.Blocks") {
+					if _, isCh := s.X.Type().Underlying().(*types.Chan); isCh {
+						sentinel, send, hsFn = ci, s, h
+					}
+				}
+			})
+		}
+	}
 	if sentinel == nil {
 		c.Fail(rule, "Blocks.close#sentinel", p.Pos(fn.Pos()), "Blocks.close shuts the ordering goroutine down with a sentinel", "no send on Blocks.Blocks found")
 		return
@@ -815,11 +849,11 @@ func ruleLiveness(c *Check, p *Program, rule string) {
 		"guarded by Blocks != nil; every path after the hand-shake stores Blocks = nil", fmt.Sprintf("guarded by Blocks != nil: %v; a return is reachable after the hand-shake with the queue still set: %v", guarded, leak))
 	// hand-shake shape: send c on queue, send nil on c, receive on c
 	var mk ssa.Value
-	if s, ok := sentinel.(*ssa.Send); ok {
-		mk = s.X
+	if send != nil {
+		mk = send.X
 	}
 	nilSent, recvd := false, false
-	allInstrs(fn, func(in ssa.Instruction) {
+	allInstrs(hsFn, func(in ssa.Instruction) {
 		if s, ok := in.(*ssa.Send); ok && s.Chan == mk && isNilConst(s.X) {
 			nilSent = true
 		}
@@ -863,7 +897,7 @@ func ruleJoinedEpilogue(c *Check, p *Program, rule string) {
 	if ww == nil {
 		return
 	}
-	for _, fn := range withAnon(ww)[1:] {
+	for _, fn := range familyFns(ww)[1:] {
 		var last ssa.Instruction
 		allInstrs(fn, func(in ssa.Instruction) {
 			if _, ok := isRecv(in); ok {
@@ -918,7 +952,7 @@ func ruleReaderShutdown(c *Check, p *Program, rule string) {
 		return
 	}
 	var readerLoop, collector *ssa.Function
-	for _, fn := range ir.AnonFuncs {
+	for _, fn := range familyFns(ir)[1:] {
 		for _, ci := range callsIn(fn) {
 			if calleeIs(ci, pkgStream, "FrameDataBlock.Read") {
 				readerLoop = fn
@@ -939,45 +973,70 @@ func ruleReaderShutdown(c *Check, p *Program, rule string) {
 	c.Funcs[fname(readerLoop)] = true
 	c.Funcs[fname(collector)] = true
 	// reader loop: every return is preceded by: sentinel hand-shake (send nil on a fresh chan enqueued), closeR, close(data)
-	var nilSend, closeData, latch ssa.Instruction
-	allInstrs(readerLoop, func(in ssa.Instruction) {
-		if s, ok := in.(*ssa.Send); ok && isNilConst(s.X) {
-			nilSend = in
+	// Each step may sit in the goroutine itself, in a helper, or in a function literal called on the spot.
+	lift := func(direct func(ssa.Instruction) bool) func(ssa.Instruction) bool {
+		return func(in ssa.Instruction) bool {
+			if direct(in) {
+				return true
+			}
+			ci, ok := in.(*ssa.Call)
+			if !ok {
+				return false
+			}
+			f := staticCallee(ci)
+			if f == nil {
+				if mc, isMC := ci.Call.Value.(*ssa.MakeClosure); isMC {
+					f, _ = mc.Fn.(*ssa.Function)
+				}
+			}
+			if f == nil || f.Pkg != readerLoop.Pkg || f == readerLoop {
+				return false
+			}
+			okc, _ := mustOnAllPaths(p, f, direct, false, 1)
+			return okc
 		}
-		if v, ok := isClose(in); ok {
-			if u, isU := v.(*ssa.UnOp); isU && u.Op == token.MUL {
-				if fv, isFV := u.X.(*ssa.FreeVar); isFV && fv.Name() == "data" {
-					closeData = in
+	}
+	isNilSend := lift(func(in ssa.Instruction) bool {
+		s, ok := in.(*ssa.Send)
+		return ok && isNilConst(s.X)
+	})
+	isLatch := lift(func(in ssa.Instruction) bool {
+		ci, ok := in.(ssa.CallInstruction)
+		return ok && calleeIs(ci, pkgStream, "Blocks.closeR")
+	})
+	isCloseData := lift(func(in ssa.Instruction) bool {
+		v, ok := isClose(in)
+		if !ok {
+			return false
+		}
+		// the data channel: a channel of byte slices
+		if ch, isCh := v.Type().Underlying().(*types.Chan); isCh {
+			if sl, isSl := ch.Elem().Underlying().(*types.Slice); isSl {
+				if b, isB := sl.Elem().Underlying().(*types.Basic); isB && b.Kind() == types.Uint8 {
+					return true
 				}
 			}
 		}
-		if ci, ok := in.(ssa.CallInstruction); ok && calleeIs(ci, pkgStream, "Blocks.closeR") {
-			latch = in
-		}
+		return false
 	})
 	for _, x := range []struct {
 		name string
-		in   ssa.Instruction
+		pred func(ssa.Instruction) bool
 		desc string
 	}{
-		{"sentinel", nilSend, "the reader goroutine tells the collector that no more blocks follow (nil on a fresh per-block channel) on every exit"},
-		{"latch", latch, "the reader goroutine latches its final error (or io.EOF) on every exit"},
-		{"close-data", closeData, "the reader goroutine closes the data channel on every exit (the consumer blocks on it)"},
+		{"sentinel", isNilSend, "the reader goroutine tells the collector that no more blocks follow (nil on a fresh per-block channel) on every exit"},
+		{"latch", isLatch, "the reader goroutine latches its final error (or io.EOF) on every exit"},
+		{"close-data", isCloseData, "the reader goroutine closes the data channel on every exit (the consumer blocks on it)"},
 	} {
-		if x.in == nil {
-			c.Fail(rule, "initR.reader#"+x.name, p.Pos(readerLoop.Pos()), x.desc, "instruction not found")
-			continue
-		}
 		c.Sites++
-		tgt := x.in
-		miss, _ := reachAvoid(readerLoop, nil, isReturn, func(in ssa.Instruction) bool { return in == tgt })
-		c.Cond(!miss, rule, "initR.reader#"+x.name+"-on-every-exit", p.InstrPos(x.in), x.desc, "every path to a return passes it", "a return is reachable without it: the collector / consumer would block forever (goroutine leak, Read never returns)")
+		miss, _ := reachAvoid(readerLoop, nil, isReturn, x.pred)
+		c.Cond(!miss, rule, "initR.reader#"+x.name+"-on-every-exit", p.Pos(readerLoop.Pos()), x.desc, "every path to a return passes it", "a return is reachable without it: the collector / consumer would block forever (goroutine leak, Read never returns)")
 	}
 	// order: sentinel hand-shake completes before latch, latch before close(data)
-	if nilSend != nil && latch != nil && closeData != nil {
-		r1, _ := reachAvoid(readerLoop, nil, func(in ssa.Instruction) bool { return in == latch }, func(in ssa.Instruction) bool { return in == nilSend })
-		r2, _ := reachAvoid(readerLoop, nil, func(in ssa.Instruction) bool { return in == closeData }, func(in ssa.Instruction) bool { return in == latch })
-		c.Cond(!r1 && !r2, rule, "initR.reader#shutdown-order", p.InstrPos(latch), "shutdown order: collector drained (hand-shake), then error latched, then data channel closed - the consumer reads the latch when it sees the closed channel", "sentinel < closeR < close(data) on all paths", fmt.Sprintf("latch reachable before hand-shake: %v; close(data) reachable before latch: %v", r1, r2))
+	{
+		r1, _ := reachAvoid(readerLoop, nil, isLatch, isNilSend)
+		r2, _ := reachAvoid(readerLoop, nil, isCloseData, isLatch)
+		c.Cond(!r1 && !r2, rule, "initR.reader#shutdown-order", p.Pos(readerLoop.Pos()), "shutdown order: collector drained (hand-shake), then error latched, then data channel closed - the consumer reads the latch when it sees the closed channel", "sentinel < closeR < close(data) on all paths", fmt.Sprintf("latch reachable before hand-shake: %v; close(data) reachable before latch: %v", r1, r2))
 	}
 	// the loop is left as soon as an error is latched or a read fails
 	loopGuard := false
@@ -988,23 +1047,47 @@ func ruleReaderShutdown(c *Check, p *Program, rule string) {
 	}
 	c.Cond(loopGuard, rule, "initR.reader#stops-on-error", p.Pos(readerLoop.Pos()), "the reader goroutine re-checks the error latch so that it stops submitting blocks after a failure", "ErrorR() consulted in the loop", "the reader loop never consults the error latch")
 	// collector: answers the sentinel by close(c); closes the queue on return; closes each delivered c
-	var ch ssa.Value
+	// every buffer forwarded to the consumer is followed, on all paths to the next iteration or
+	// return, by closing a per-block channel; and some path answers the sentinel (close, then return)
+	isChanClose := func(in ssa.Instruction) bool {
+		v, ok := isClose(in)
+		if !ok {
+			return false
+		}
+		if ch, isCh := v.Type().Underlying().(*types.Chan); isCh {
+			_, isSl := ch.Elem().Underlying().(*types.Slice)
+			return isSl
+		}
+		return false
+	}
+	nClose, nFwd, missed := 0, 0, false
 	allInstrs(collector, func(in ssa.Instruction) {
-		if ex, ok := in.(*ssa.Extract); ok && ex.Index == 0 {
-			if _, isChan := ex.Type().Underlying().(*types.Chan); isChan {
-				ch = ex
+		if isChanClose(in) {
+			nClose++
+		}
+		if s, ok := in.(*ssa.Send); ok {
+			if _, isSl := s.X.Type().Underlying().(*types.Slice); isSl && !isNilConst(s.X) {
+				nFwd++
+				stop := func(j ssa.Instruction) bool {
+					if isReturn(j) {
+						return true
+					}
+					// next queue receive (a commaok receive yielding a channel)
+					if u, isU := j.(*ssa.UnOp); isU && u.Op == token.ARROW && u.CommaOk {
+						if ch, isCh := u.X.Type().Underlying().(*types.Chan); isCh {
+							_, inner := ch.Elem().Underlying().(*types.Chan)
+							return inner
+						}
+					}
+					return false
+				}
+				if r, _ := reachAvoid(collector, in, stop, isChanClose); r {
+					missed = true
+				}
 			}
 		}
 	})
-	if ch != nil {
-		nClose := 0
-		allInstrs(collector, func(in ssa.Instruction) {
-			if v, ok := isClose(in); ok && v == ch {
-				nClose++
-			}
-		})
-		c.Cond(nClose >= 2, rule, "initR.collector#answers", p.Pos(collector.Pos()), "the collector closes the per-block channel after forwarding a buffer and when it receives the sentinel (the reader goroutine waits for that)", fmt.Sprintf("%d close(c) sites", nClose), "the collector does not close the per-block channel on both the data path and the sentinel path")
-	}
+	c.Cond(nClose >= 2 && nFwd >= 1 && !missed, rule, "initR.collector#answers", p.Pos(collector.Pos()), "the collector closes the per-block channel after forwarding a buffer and when it receives the sentinel (the reader goroutine waits for that)", fmt.Sprintf("%d close(c) sites; every forwarded buffer is followed by a close", nClose), fmt.Sprintf("close(c) sites: %d; forwarded buffers: %d; a forwarded buffer is not followed by close(c): %v", nClose, nFwd, missed))
 }
 
 // orderingFns: the functions that run in the Writer's ordering goroutine: the
